@@ -218,6 +218,12 @@ func (w *world) relClass(h specqbft.Height) string {
 	if len(w.certRounds[h]) >= 2 {
 		return "height-with-certificates-of-several-rounds"
 	}
+	// the "highest" record and the per-height record of a full node hold different certificates for this height: a certificate
+	// learned while a higher height was already started went to the per-height record only (the S15 rule), a restart then
+	// reloads the stale "highest" copy
+	if w.modelHighest != nil && w.modelHighest.Height == h && w.modelHist[h] != nil && !bytes.Equal(encCert(w.modelHighest.Cert), encCert(w.modelHist[h].Cert)) {
+		return "highest-and-per-height-records-diverged-after-late-certificate"
+	}
 	return "single-round"
 }
 
@@ -271,15 +277,16 @@ func (w *world) settle(step string, crashed bool) {
 				asHist = in != nil && in.DecidedMessage != nil && bytes.Equal(encCert(in.DecidedMessage), encCert(s.Cert))
 			}
 		}
+		cls := w.relClass(s.Height) // before the model moves
 		if asHighest {
 			if ok, why := replaceOK(w.modelHighest, &s); !ok {
-				w.viol("highest-instance-replaced-illegally", s.Kind+"/"+w.relClass(s.Height), step+": stored highest decided instance: "+strings.Replace(why, "REL", w.relClass(s.Height), 1))
+				w.viol("highest-instance-replaced-illegally", s.Kind+"/"+cls, step+": stored highest decided instance: "+strings.Replace(why, "REL", cls, 1))
 			}
 			w.modelHighest = &s
 		}
 		if asHist {
 			if ok, why := replaceOK(w.modelHist[s.Height], &s); !ok {
-				w.viol("historical-instance-replaced-illegally", s.Kind+"/"+w.relClass(s.Height), step+": stored instance of height "+fmt.Sprint(s.Height)+": "+strings.Replace(why, "REL", w.relClass(s.Height), 1))
+				w.viol("historical-instance-replaced-illegally", s.Kind+"/"+cls, step+": stored instance of height "+fmt.Sprint(s.Height)+": "+strings.Replace(why, "REL", cls, 1))
 			}
 			w.modelHist[s.Height] = &s
 		}
@@ -469,8 +476,21 @@ func (w *world) doLocal() {
 	for id := spectypes.OperatorID(2); int(id) <= w.n; id++ {
 		_ = w.run.ProcessConsensus(w.lg, qsim.Sign(w.ks, id, &specqbft.Message{MsgType: specqbft.PrepareMsgType, Height: h, Round: r, Identifier: w.id[:], Root: root}))
 	}
+	// a certificate of round r may come into being (and be stored) inside the next calls: note the round BEFORE them, a crash
+	// injected into the store write would otherwise lose this bookkeeping
+	if w.certRounds == nil {
+		w.certRounds = map[specqbft.Height]map[specqbft.Round]bool{}
+	}
+	if w.certRounds[h] == nil {
+		w.certRounds[h] = map[specqbft.Round]bool{}
+	}
+	hadRound := w.certRounds[h][r]
+	w.certRounds[h][r] = true
 	for id := spectypes.OperatorID(2); int(id) <= w.n; id++ {
 		_ = w.run.ProcessConsensus(w.lg, qsim.Sign(w.ks, id, &specqbft.Message{MsgType: specqbft.CommitMsgType, Height: h, Round: r, Identifier: w.id[:], Root: root}))
+	}
+	if !in.State.Decided && !hadRound {
+		delete(w.certRounds[h], r)
 	}
 	w.hist = append(w.hist, fmt.Sprintf("local-decision at height %d round %d -> decided=%v", h, r, in.State.Decided))
 	if in.State.Decided {
